@@ -191,9 +191,14 @@ func (l *Lookup) RunFree(r *gen.Rand) (out Outcome) {
 	select {
 	case <-l.Op.Stopped():
 		out.Stopped = true
+		l.stoppedAt.Store(l.tick.Add(1))
 	case <-time.After(20 * time.Second):
 		stuck("stopped-never-reported")
 		return
+	}
+	if l.SlowFilter {
+		// leave room for a straggler to show itself
+		time.Sleep(300 * time.Microsecond)
 	}
 	s := l.Op.VerifSnapshot()
 	l.mu.Lock()
